@@ -116,3 +116,11 @@ prop("C09",
          dict(test="^TestC09_(Gen|Corpus)$", quick=dict(checks=1200), thorough=dict(checks=8000, shards=16, timeout=3000)),
          dict(test="^XXX$", thorough_only=True, thorough=dict(fuzz="^FuzzC09$", fuzztime="300s", timeout=1200)),
      ])
+
+prop("C14",
+     level_text="generated-input search (rapid): parsed ASTs (executable, type-system, mixed) x visitor policies ({continue, skip, break} on up to three drawn (node, phase) pairs) x five visitor forms x 1-4 parallel visitors x optional type tracking; oracle = a plain recursive reference walk producing the expected event list (node, key, parent, ancestors, path) and an independent type tracker",
+     note="children per kind are those of visitor.QueryDocumentKeys as frozen in the harness's syn.Node shape; Path is compared on enter only (DESIGN §3.5); a leading nil in Ancestors is tolerated; type tracking is compared on executable documents over the fixed kitchen schema, except where the reference says 'unspecified' (arguments of unknown directives, introspection subtrees, fragments on input types, variables of output types)",
+     technique="property-based testing (rapid) against a reference traversal",
+     rule="documents from the grammar sentence generator (vocabulary of the kitchen schema when type tracking is on); policies aim at existing pre-order indices; forms: KindFuncMap{Kind,Leave}, KindFuncMap{Enter,Leave}, generic Enter/Leave (with EnterKindMap traps), Enter/LeaveKindMap, mixture. Also: no-edit traversal leaves the tree identical, second traversal gives the same number of events. Non-trivial = a skip/break in some policy, or >= 2 parallel visitors, or a type-system document; distinct by hash of the case.",
+     assumptions=SYN_ASSUME,
+     runs=[dict(test="^TestC14$", quick=dict(checks=4000), thorough=dict(checks=40000, shards=16, timeout=3000))])
